@@ -15,13 +15,22 @@
  *   x detach <h>             h.detach(): the reference becomes an external one
  *   x ext <o> unref          external reference given back
  *   x end                    drop the root handles, give back external references of small counters
+ * Second object kind: the buffers behind mpt::unique_array<Elem> handles a0..a2 (mptcore/array.h; BufferNoCopy buffers whose
+ * detach() refuses while they are shared and not empty); Elem counts its live instances.
+ *   x ua copy <a> <b>        a = b
+ *   x ua insert <a>          a.insert(a.length())            (reserve + construct)
+ *   x ua resize <a> <n>      a.resize(n)
+ *   x ua drop <a>            a = unique_array<Elem>()
  */
 extern "C" {
 #include "drv_util.h"
 }
 #include <new>
 #include <utility>
+/* mpt++/array.cpp is compiled into this unit (buffers are C objects with a hand-made vtable: vptr check off) */
+#include "array.cpp"
 #include "core.h"
+#include "array.h"
 
 using namespace mpt;
 
@@ -64,6 +73,42 @@ public:
 static xnode *objs[NOBJ];
 static int nobj;
 static reference<node> hnd[NH];
+
+/* ---- unique_array handles */
+static long elem_live;
+struct Elem
+{
+	Elem() { ++elem_live; }
+	Elem(const Elem &) { ++elem_live; }
+	~Elem() { --elem_live; }
+	uint64_t pad;
+};
+class UA : public unique_array<Elem>
+{
+public:
+	UA() : unique_array<Elem>() { }
+	content<Elem> *inst() const { return _ref.instance(); }
+	UA &operator=(const UA &a) { unique_array<Elem>::operator=(a); return *this; }
+};
+#define NA 3
+static UA *ua[NA];
+static void ua_reset(void)
+{
+	for (int i = 0; i < NA; i++) { delete ua[i]; ua[i] = new UA; }
+}
+static void ua_result(const char *r)
+{
+	printf("R %s | C", r);
+	for (int i = 0; i < NA; i++) {
+		content<Elem> *c = ua[i]->inst();
+		if (!c) { printf(" a%d=NULL", i); continue; }
+		if (c->get_flags() & BufferImmutable) { printf(" a%d=d", i); continue; }
+		int g = i;
+		for (int j = 0; j < i; j++) if (ua[j]->inst() == c) { g = j; break; }
+		printf(" a%d=g%d:%ld", i, g, ua[i]->length());
+	}
+	printf(" live=%ld | I ret=0\n", elem_live);
+}
 
 static int obj_of(const node *p)
 {
@@ -145,6 +190,7 @@ int main(void)
 			clear_events();
 			nobj = 0;
 			memset(ext, 0, sizeof(ext));
+			ua_reset();
 			printf("R ok | C - | I ret=0\n");
 		}
 		else if (!strcmp(op, "new") && drv_nw == 4) {
@@ -213,9 +259,34 @@ int main(void)
 			finish_script();
 			result("ok");
 		}
+		else if (!strcmp(op, "ua") && drv_nw >= 4) {
+			int a = parse_idx(drv_w[3], NA);
+			const char *sub = drv_w[2];
+			if (a < 0) { puts("bad-op"); continue; }
+			if (!strcmp(sub, "copy") && drv_nw == 5) {
+				int b = parse_idx(drv_w[4], NA);
+				if (b < 0) { puts("bad-op"); continue; }
+				*ua[a] = *ua[b];
+				ua_result("ok");
+			}
+			else if (!strcmp(sub, "insert") && drv_nw == 4) {
+				ua_result(ua[a]->insert(ua[a]->length()) ? "ok" : "refused");
+			}
+			else if (!strcmp(sub, "resize") && drv_nw == 5) {
+				size_t n;
+				if (drv_parse_nat(drv_w[4], &n) || n > 64) { puts("bad-op"); continue; }
+				ua_result(ua[a]->resize((long) n) ? "ok" : "refused");
+			}
+			else if (!strcmp(sub, "drop") && drv_nw == 4) {
+				*ua[a] = UA();
+				ua_result("ok");
+			}
+			else puts("bad-op");
+		}
 		else puts("bad-op");
 	}
 	finish_script();
 	reap();
+	for (int i = 0; i < NA; i++) delete ua[i];
 	return 0;
 }
